@@ -8,7 +8,7 @@
 import Proofs.V3SpecEnc
 
 namespace C10.V3
-open Mqtt Mqtt.V3
+open Mqtt Mqtt.V3 Mqtt.V3.SpecEnc
 
 /-- For every valid packet the emitted bytes are a well-formed MQTT 3.x control packet
 per the independent decoder, which recovers exactly the original field values and the
